@@ -207,19 +207,25 @@ def parent_main(argv):
         cmd = [sys.executable, "-m", "xv.runner", "--worker", pid, tier, str(seed), str(s), str(nshards), out]
         if replay:
             cmd += ["--replay", os.path.abspath(replay)]
-        p = subprocess.Popen(
-            cmd, cwd=boot.VERIF, env=env, stdout=subprocess.PIPE, stderr=subprocess.PIPE, text=True
-        )
-        procs.append((s, out, p))
+        # worker output goes to files: a full pipe would block a chatty worker until the parent reads it
+        errf = open(os.path.join(tmpdir, f"shard{s}.err"), "w+")
+        p = subprocess.Popen(cmd, cwd=boot.VERIF, env=env, stdout=subprocess.DEVNULL, stderr=errf, text=True)
+        procs.append((s, out, p, errf))
     results, extras, worker_problems = [], [], []
     deadline = time.time() + WORKER_TIMEOUT[tier]
-    for s, out, p in procs:
+    for s, out, p, errf in procs:
         try:
-            so, se = p.communicate(timeout=max(5, deadline - time.time()))
+            p.wait(timeout=max(5, deadline - time.time()))
         except subprocess.TimeoutExpired:
             p.kill()
-            so, se = p.communicate()
+            p.wait()
             worker_problems.append(f"worker {s} exceeded the wall-clock watchdog")
+        try:
+            errf.seek(max(0, errf.tell() - 4000))
+            se = errf.read()
+        except Exception:
+            se = ""
+        errf.close()
         path = out if os.path.exists(out) else (out + ".partial" if os.path.exists(out + ".partial") else None)
         if p.returncode != 0:
             worker_problems.append(f"worker {s} exit {p.returncode}: {(se or '')[-600:]}")
